@@ -34,6 +34,30 @@ def split_pc(st, base_len, guard):
     return (z3.And(conds) if conds else z3.BoolVal(True)), facts
 
 
+class Skolemiser:
+    """replaces every free constant created after `mark` (other than the position variable) by an application f(i)"""
+    def __init__(self, i, mark):
+        self.i, self.mark, self.map = i, mark, {}
+
+    def __call__(self, t):
+        import re
+        from z3.z3util import get_vars
+        if t is None:
+            return None
+        subs = []
+        for v in get_vars(t):
+            if v.get_id() == self.i.get_id():
+                continue
+            m = re.search(r"!(\d+)$", v.decl().name())
+            if m and int(m.group(1)) > self.mark:
+                key = v.get_id()
+                if key not in self.map:
+                    f = z3.Function(smt.fresh_name("sk_" + v.decl().name().split("!")[0]), smt.I, v.sort())
+                    self.map[key] = (v, f(self.i))
+                subs.append(self.map[key])
+        return z3.substitute(t, *subs) if subs else t
+
+
 def _merge(eng, base_len, results, hoisted=None, guard=None):
     """results: [(value, state)] of a pure evaluation; -> (term of sort Val, static type)"""
     if not results:
@@ -110,6 +134,7 @@ def _one(eng, e, gen, view, s, kind):
     n = view.n
     s.assume(n >= 0)
     i = fresh("ci", smt.I)
+    mark = next(smt._counter)            # symbols created from here on belong to ONE position of the comprehension
     body = s.copy()
     body.assume(i >= 0, i < n)
     inr = z3.And(i >= 0, i < n)
@@ -149,6 +174,14 @@ def _one(eng, e, gen, view, s, kind):
         raised = eng.raised.pop()
 
     # exceptions inside the body: raised for some position, otherwise excluded for all positions
+    # Soundness: a symbol created while evaluating the body for the symbolic position i (result of a contracted call,
+    # definition of a slice, ...) stands for a different value at every position: it becomes a function of i.
+    sk = Skolemiser(i, mark)
+    elt_t, key_t_, val_t_ = sk(elt_t), sk(locals().get("key_t")), sk(locals().get("val_t"))
+    if isinstance(e, ast.DictComp):
+        key_t, val_t = key_t_, val_t_
+    cond_term = sk(cond_term)
+    hoisted = [sk(f) for f in hoisted]
     normal = s
     n_pc = len(s.pc)
     seen = set()
@@ -160,6 +193,8 @@ def _one(eng, e, gen, view, s, kind):
     n_pc2 = len(s.pc)
     for r in raised:
         cond, facts = split_pc(r.st, base_len, inr)
+        cond = sk(cond)
+        facts = [sk(f) for f in facts]
         for f in facts:
             if f.get_id() not in seen:
                 seen.add(f.get_id())
